@@ -271,6 +271,15 @@ def gen(task):
                         yield fill(t, leaves)
                 # exponent literals at every position together
                 yield fill(t, ["1.0e-3", "2.5D+4", "3.e5", ".5"][:nl] if nl <= 4 else NAMES[:nl])
+        # collisions: the SAME literal several times (placeholder numbering in
+        # string_replace_map), a different one first
+        for k in range(2, n + 2):
+            for t in trees(k, REPS):
+                if t[0] != root:
+                    continue
+                nl = nleaves(t)
+                for pat in (["1e-5", "2e0", "2e0", "1e-5", "2e0"], ["2.5d+2", "a", "1.0e-3", "1.0e-3", "b"], ["'x-y'", "'p q'", "'p q'", "'x-y'", "s"]):
+                    yield fill(t, pat[:nl])
     elif task[0] == "C":
         n = task[1]
         bins = [s for s in REPS if OPMAP[s][2] == 2]
